@@ -9,13 +9,13 @@ claim("C16",
       "Bounded model checking of the real Eq/Ord/Hash impls of OrderedFloat64, OrderableValue, HashableValue and of the spill (de)serialiser: "
       "for ALL bit patterns of i64/f64/f32/bool/timestamp payloads, equality is an equivalence, cmp is a total order consistent with ==, equal values emit "
       "identical Hash byte streams (recording hasher, so every Hasher agrees), and scalar values round-trip bit for bit through the spill codec.",
-      "Variants are concrete per query, payloads fully symbolic. String variant, bytes, maps, nesting deeper than a 2-element list, bincode/JSON serialisation and the "
+      "Variants are concrete per query, payloads fully symbolic (strings: one symbolic byte). Longer strings, bytes, maps, nesting deeper than a 2-element list, bincode/JSON serialisation and the "
       "index/distinct/sort consumers are outside this check's bound.",
       "DESIGN.md section 4 C16")
 
 claim("C15",
       "Bounded model checking of the real codecs: zig-zag (both copies, all i64/u64), DeltaEncoding signed (n<=3, all i64) and unsigned (sorted, n<=2, all u64), "
-      "DeltaBitPacked (n<=2), BitPackedInts at concrete widths 1,7,16,21,32,33,63,64 with n around the values-per-word boundary (values symbolic), bits_needed (all u64), "
+      "DeltaBitPacked (n<=2), BitPackedInts at EVERY width 1..=64 with n = min(values-per-word + 1, 9) crossing the word boundary (values symbolic; 64 queries), bits_needed (all u64), "
       "RunLengthEncoding random access / iteration (n=2), BitVector (n=5+push): decode(encode(x)) == x, random access agrees with full decoding, to_bytes/from_bytes changes nothing.",
       "Lengths and bit widths are concrete per query, element values fully symbolic. Outside the bound: longer sequences (63/64/65 element boundaries), dictionary encoding, codec selector, "
       "compressed property columns and adjacency chunks, succinct structures, RunLengthEncoding::decode for n>=2 (solver ran out of memory; optional thorough harnesses), arbitrary-byte decoding.",
